@@ -49,6 +49,18 @@ CHECKS = {
             "random 32-bit lists, non-contiguous and foreign-type inputs; TLC (Trace_C14) decides set equality, length "
             "bound, order, notes, class/platform and the refusals.",
             "7 (C14)"),
+    "C10": ("model_checking",
+            "TLA+ spec (Reseq: limb-number arithmetic, recursive numbering through blocks) model-checked by TLC; "
+            "TLC-enumerated calls replayed on live Acl/AceGroup/AddrGroup objects; traces validated by TLC with limb "
+            "arithmetic at Max = 2^32-1",
+            "TLC checks on the small instance (every tree shape with <= 4/5 leaves, old numbering, start and step in "
+            "-1..13 with Max = 12) that the recursive numbering equals the direct characterisation s, s+d, ..., that "
+            "errors arise exactly in the three documented cases, that nothing but numbers changes and that limb "
+            "arithmetic equals integer arithmetic; each call is replayed under a low and a high number window "
+            "(boundary 2^32-1) on live objects of the three classes, with follow-up calls, duplicate-line histories and "
+            "random boundary-aimed histories; TLC (Trace_C10) judges numbers, returned value, exception and unchanged "
+            "content after every call.",
+            "7 (C10)"),
 }
 
 NOT_YET = {
